@@ -82,6 +82,10 @@ def cases():
     # split: user in the rule file, definition in an extra file and vice versa
     out.append({"id": "defined/in_body/split_user_in_file", "feature": "ref_in_body_split", "expect": "equiv_or_error", "name": "@inner", "pattern": pat, "inlined": inl, "macros": [body_outer, OTHER], "extra_macros": [inner], "where": "mixed"})
     out.append({"id": "defined/in_body/split_def_in_file", "feature": "ref_in_body_user_first", "expect": "equiv", "pattern": pat, "inlined": inl, "macros": [inner, OTHER], "extra_macros": [body_outer], "where": "mixed"})
+    # a rule-file macro whose name is a prefix of a library macro's name: both references are expanded as written
+    out.append({"id": "defined/prefix_names/file_short_extra_long", "feature": "ref_prefix_names", "expect": "equiv", "pattern": ["push", "@any_shift", "@any"], "inlined": ["push", "shl", "x"], "macros": [{"name": "@any", "pattern": "x"}], "extra_macros": [{"name": "@any_shift", "pattern": "shl"}], "where": "mixed"})
+    # (the mirrored split - library defines the SHORT name - is ambiguous by the DSL's own substring rule: `@any_shift` is then a
+    # legal use of `@any` inside a name; not demanded)
     # an undefined reference whose name contains characters outside [A-Za-z0-9_] (a typo of a defined name)
     for nm in ("@oth-er", "@ot.her", "@oth+er"):
         out.append({"id": f"undefined/odd_name/{nm}", "feature": "undef_odd_name", "expect": "error", "name": nm, "pattern": ["push", {"mov": [nm, "b"]}, "@other"], "macros": [OTHER], "where": "file"})
